@@ -167,6 +167,12 @@ def templates():
                         ("zip_latest", {}), ("union", {})]:
         p = [S(), S(), S()]; p.append(node(kind, ups=[1, 2, 3], **extra)); _sink(p, 4)
         T.append(("join3_%s_%s" % (kind, "".join(map(str, extra.get("eon", [])))), p))
+    # zip(maxsize=1): in a synchronous pipeline nobody waits, an input may run ahead as far as it likes
+    p = [S(), S()]; p.append(node("zip", ups=[1, 2], m=1)); _sink(p, 3)
+    T.append(("join2_zip_max1", p))
+    p = [S(), node("map", f="inc", ups=[1]), node("partition", n=2, ups=[1])]
+    p.append(node("zip", ups=[2, 3], m=1)); _sink(p, 4)
+    T.append(("diamond_zip_max1_partition", p))
     # zip with literals at several positions
     for lits in ([[0, ["i", 7]]], [[1, ["i", 7]]], [[2, ["i", 7]]], [[0, ["i", 7]], [3, ["i", 8]]],
                  [[1, ["i", 7]], [2, ["i", 8]]]):
